@@ -202,10 +202,25 @@ def corruptions(rng, data, keys, n):
     L = len(data)
     slots = [8 * (um.cdb_hash(k) & 255) for k in keys] or [0]
     end_records = min(int.from_bytes(data[8 * i:8 * i + 4], "little") for i in range(256)) if L >= 2048 else L
-    for _ in range(n):
+    # record headers (offset, klen, dlen) of the undamaged file, for the directed "value-length" damage
+    rec_at = []
+    p = 2048
+    while p + 8 <= end_records:
+        kl, dl = int.from_bytes(data[p:p + 4], "little"), int.from_bytes(data[p + 4:p + 8], "little")
+        rec_at.append((p, kl, dl))
+        p += 8 + kl + dl
+    for it in range(n):
         b = bytearray(data)
         k = rng.random()
-        if k < 0.22:
+        if (it == 0 or k < 0.12) and rec_at:
+            # a record whose value ends early: empty, a few bytes, cut inside / right after any field
+            what = "value-length"
+            p, kl, dl = rng.choice(rec_at[:-1] or rec_at)
+            val = data[p + 8 + kl:p + 8 + kl + dl]
+            cuts = [0, 1, 2] + [i for i, c in enumerate(val) if c == 0] + [i + 1 for i, c in enumerate(val) if c == 0]
+            nd = rng.choice(cuts + [rng.randrange(0, dl + 1)])
+            b[p + 4:p + 8] = min(nd, dl).to_bytes(4, "little")
+        elif k < 0.22:
             what = "truncate"
             cut = rng.choice([0, 8, 2047, 2048, L - 1, L - 8, rng.randrange(0, L + 1), 8 * rng.randrange(0, L // 8 + 1),
                               end_records, max(0, end_records - rng.randint(1, 12))])
@@ -382,9 +397,9 @@ class Box:
                     if k == "arg":
                         r["args"].append(bytes.fromhex(v))
                     elif k in ("uid", "euid", "gid", "egid"):
-                        r[k] = int(v)
+                        r[k] = int(v) & 0xffffffff          # ql-rec prints ids as signed ints
                     elif k == "groups":
-                        r["groups"] = [int(x) for x in v.split(",") if x]
+                        r["groups"] = [int(x) & 0xffffffff for x in v.split(",") if x]
                     elif k == "cwd":
                         r["cwd"] = v
             snd = r["args"][8] if len(r["args"]) > 8 else b""
